@@ -522,6 +522,19 @@ def run_case(case, rec):
             for i in range(case["nvalues"]):
                 ws = writable_session(rec, path, (i + 2 * n_attr) % 4)
                 subject = fetch(ws, kind, uid)
+                if (i + 3 * n_attr) % 5 == 4 and kind != "header":
+                    # an earlier attempt on the same entity failed (the workspace had been closed): the accepted one that
+                    # follows on the re-opened workspace counts all the same
+                    ws.close()
+                    try:
+                        setattr(subject, "name" if hasattr(type(subject), "name") else attr, getattr(subject, "name", None) or "x")
+                    except Exception as exc:  # noqa: BLE001
+                        if not exc_origin(exc)[0]:
+                            raise
+                        rec.see("failed-attempt-before-session")
+                    subject = None
+                    ws.open(mode="r+")
+                    subject = fetch(ws, kind, uid)
                 vals = HEADER_VALUES[attr] if kind == "header" else values_for(subject, attr, rng, case["nvalues"])
                 if not vals or i >= len(vals):
                     ws.close()
